@@ -30,6 +30,7 @@ static long check_kept(void) {
     return bad;
 }
 
+static long ts_blocks = 0;          /* blocks of the mutex object of a thread-safe table */
 static int stale_errno = ENOMEM;   /* errno value planted before calls whose result must not depend on it */
 static qtreetbl_t *tbl;
 static qtreetbl_obj_t cur;
@@ -96,7 +97,7 @@ static void refresh_live(void) {
     if (nlive) qsort(live, nlive, sizeof(*live), ptrcmp);
 }
 static void state(void) {
-    printf("num=%zu tid=%u chk=%d live=%ld ", tbl->num, (unsigned) tbl->tid, qtreetbl_check(tbl), aw_live - (long) nkept);
+    printf("num=%zu tid=%u chk=%d live=%ld ", tbl->num, (unsigned) tbl->tid, qtreetbl_check(tbl), aw_live - (long) nkept - ts_blocks);
     if (quiet) { printf("-"); return; }
     refresh_live();
     shape(tbl->root);
@@ -107,6 +108,82 @@ static void print_cur(void) {
 }
 
 static void on_alarm(int sig) { (void) sig; printf("fault timeout\n"); fflush(stdout); _exit(96); }
+
+/* ---- `hugetree <nbytes>` (thorough tier only, no model line): a private table holding ONE value and
+ * ONE key of <nbytes> bytes (>= 2^31 / 2^32) next to small entries: sizes reported by get, getnext,
+ * find_nearest, spot-checked bytes, replacement, removal, and the order of a key that is a proper
+ * prefix of the huge key. Prints `ok live=0` or the first mismatch. */
+static unsigned char ht_byte(size_t off) { return (unsigned char) ((off * 2654435761u + (off >> 13)) & 0xff); }
+static int ht_spot(const unsigned char *p, size_t n) {
+    size_t probes[8] = {0, 1, 4095, n / 3, n / 2, n - 4097 < n ? n - 4097 : 0, n - 2, n - 1};
+    for (int i = 0; i < 8; i++) if (probes[i] < n && p[probes[i]] != ht_byte(probes[i])) return 0;
+    return 1;
+}
+static void do_hugetree(size_t n) {
+    long live0 = aw_live;
+    unsigned char *big = malloc(n);
+    qtreetbl_t *t = qtreetbl(0);
+    int ok = 0;
+    if (!big || !t) { printf("no-memory"); goto out; }
+    for (size_t i = 0; i < n; i++) big[i] = ht_byte(i);
+    /* 1. a huge VALUE */
+    if (!t->putobj(t, "a", 2, "x", 2) || !t->putobj(t, "b", 2, big, n) || !t->putobj(t, "c", 2, "y", 2)) { printf("mismatch: put of a %zu-byte value failed (%s)", n, errname(errno)); goto out; }
+    {
+        size_t sz = 0; unsigned char *d = t->getobj(t, "b", 2, &sz, false);
+        if (!d || sz != n || !ht_spot(d, n)) { printf("mismatch: get reports %zu bytes for a value of %zu", sz, n); goto out; }
+        d = t->getobj(t, "b", 2, &sz, true);
+        if (!d || sz != n || !ht_spot(d, n)) { printf("mismatch: copying get reports %zu bytes for a value of %zu", sz, n); vf_free(d); goto out; }
+        vf_free(d);
+        qtreetbl_obj_t o; memset(&o, 0, sizeof o); size_t seen = 0;
+        while (t->getnext(t, &o, false)) { seen++; if (o.namesize == 2 && !memcmp(o.name, "b", 2) && o.datasize != n) { printf("mismatch: walk reports datasize %zu for a value of %zu", o.datasize, n); goto out; } }
+        if (seen != 3) { printf("mismatch: walk returned %zu of 3 keys", seen); goto out; }
+        o = t->find_nearest(t, "b", 2, false);
+        if (!o.name || o.datasize != n) { printf("mismatch: find_nearest reports datasize %zu for a value of %zu", o.datasize, n); goto out; }
+        if (!t->putobj(t, "b", 2, "small", 6) || t->size(t) != 3) { printf("mismatch: replacing the huge value"); goto out; }
+        d = t->getobj(t, "b", 2, &sz, false);
+        if (!d || sz != 6) { printf("mismatch: after the replacement get reports %zu bytes", sz); goto out; }
+    }
+    /* 2. a huge KEY, and the 1-byte key that is its proper prefix */
+    {
+        unsigned char one = big[0];
+        if (!t->putobj(t, big, n, "v1", 3) || !t->putobj(t, &one, 1, "p", 2)) { printf("mismatch: put of a %zu-byte key failed (%s)", n, errname(errno)); goto out; }
+        if (!t->putobj(t, big, n, "v2", 3)) { printf("mismatch: re-put of the huge key failed"); goto out; }
+        if (t->size(t) != 5) { printf("mismatch: %zu keys after putting a %zu-byte key twice, expected 5", t->size(t), n); goto out; }
+        size_t sz = 0; char *d = t->getobj(t, big, n, &sz, false);
+        if (!d || sz != 3 || memcmp(d, "v2", 3)) { printf("mismatch: get of the %zu-byte key", n); goto out; }
+        /* order: the prefix sorts before the longer key; both between their neighbours */
+        qtreetbl_obj_t o; memset(&o, 0, sizeof o); size_t prev = 0; int first = 1, saw_one = 0, saw_big = 0;
+        while (t->getnext(t, &o, false)) {
+            if (o.namesize == 1 && *(unsigned char *) o.name == one) saw_one = 1;
+            if (o.namesize == n) { saw_big = 1; if (!saw_one) { printf("mismatch: the %zu-byte key is filed before its own 1-byte prefix", n); goto out; } }
+            (void) prev; (void) first;
+        }
+        if (!saw_one || !saw_big) { printf("mismatch: walk lost the huge key or its prefix"); goto out; }
+        if (!t->removeobj(t, big, n) || t->size(t) != 4 || t->getobj(t, big, n, &sz, false) != NULL) { printf("mismatch: remove of the %zu-byte key", n); goto out; }
+    }
+    if (qtreetbl_check(t) != 0) { printf("mismatch: qtreetbl_check != 0"); goto out; }
+    /* 3. the other insertion order (the huge key is the probe, its 1-byte prefix the node) */
+    {
+        qtreetbl_t *t2 = qtreetbl(0);
+        unsigned char one = big[0];
+        int good = t2 && t2->putobj(t2, &one, 1, "p", 2) && t2->putobj(t2, big, n, "v", 2);
+        if (good) {
+            qtreetbl_obj_t o; memset(&o, 0, sizeof o); int idx = 0, pos_one = -1, pos_big = -1;
+            while (t2->getnext(t2, &o, false)) { if (o.namesize == 1) pos_one = idx; else if (o.namesize == n) pos_big = idx; idx++; }
+            size_t sz = 0;
+            good = idx == 2 && pos_one == 0 && pos_big == 1 && t2->getobj(t2, big, n, &sz, false) != NULL && t2->getobj(t2, &one, 1, &sz, false) != NULL
+                   && qtreetbl_check(t2) == 0;
+            if (!good) printf("mismatch: a 1-byte key then the %zu-byte key it is a prefix of: walk positions %d/%d of %d, or a key is not found", n, pos_one, pos_big, idx);
+        } else printf("mismatch: puts into the second table failed");
+        if (t2) t2->free(t2);
+        if (!good) goto out;
+    }
+    ok = 1;
+out:
+    if (t) t->free(t);
+    free(big);
+    if (ok) printf("ok live=%ld", aw_live - live0);
+}
 
 int main(void) {
     char *line = NULL; size_t cap = 0; ssize_t len;
@@ -119,22 +196,31 @@ int main(void) {
         if (nw == 0) continue;
         const char *op = w[0];
         bytes_t k = {0, 0}, v = {0, 0};
-        if (nw >= 2 && strcmp(op, "new") && strcmp(op, "quiet") && strncmp(op, "fault", 5) && !unhex(w[1], &k)) { printf("bad-hex\n"); continue; }
+        if (nw >= 2 && strcmp(op, "new") && strcmp(op, "quiet") && strcmp(op, "hugetree") && strncmp(op, "fault", 5) && !unhex(w[1], &k)) { printf("bad-hex\n"); continue; }
         if (nw >= 3 && strcmp(op, "putnull") && !unhex(w[2], &v)) { printf("bad-hex\n"); continue; }
         alarm(2);
+        if (!strcmp(op, "hugetree") && nw == 2) {
+            alarm(0);
+            do_hugetree(strtoull(w[1], NULL, 10));
+            printf("\n"); free(k.p); free(v.p); continue;
+        }
         if (!strcmp(op, "fault") || !strcmp(op, "faultfrom")) {
             /* arm: fail the k-th allocation (or all from the k-th) inside the next call */
             aw_arm(atol(w[1]), op[5] == 'f');
             printf("ok\n"); alarm(0); free(k.p); free(v.p); continue;
         }
         if (!strcmp(op, "new")) {
+            /* new <mode>: mode % 10 = comparator; mode >= 10: QTREETBL_THREADSAFE (single-threaded use
+             * must behave identically; the mutex block is not part of the contents' ledger) */
+            int m = atoi(w[1]);
             tbl->free(tbl);
+            ts_blocks = 0;
             aw_begin();
-            tbl = qtreetbl(0);
+            tbl = qtreetbl(m >= 10 ? QTREETBL_THREADSAFE : 0);
             aw_end();
             int failed_ctor = (tbl == NULL);
-            if (failed_ctor) tbl = qtreetbl(0);
-            int m = atoi(w[1]);
+            if (failed_ctor) tbl = qtreetbl(0); else if (m >= 10) ts_blocks = 1;
+            m %= 10;
             qtreetbl_set_compare(tbl, m == 1 ? cmp_rev : m == 2 ? cmp_fold : cmp_count);
             memset(&cur, 0, sizeof(cur));
             if (failed_ctor) printf("null live=%ld", aw_live - (long) nkept - 1); else { printf("ok "); state(); }
@@ -238,7 +324,7 @@ int main(void) {
             /* the copies must have survived the release of the container */
             long bad = check_kept();
             printf("end live=%ld bad=%ld", aw_live, bad);
-            tbl = qtreetbl(0);
+            tbl = qtreetbl(0); ts_blocks = 0;
             qtreetbl_set_compare(tbl, cmp_count);
             memset(&cur, 0, sizeof(cur));
         } else if (!strcmp(op, "cursor0")) {
